@@ -89,11 +89,17 @@ pred RepBookBelow(r reporter.Reporter, lo int) :=
   && (typeis(r, "*summary.SummaryReporterTemplate") ==> DBBelow(cellat(summary.SummaryReporterTemplate, payload(r)).db, lo))
   && (typeis(r, "*report.TotalReporter") ==> DBBelow(cellat(report.TotalReporter, payload(r)).db, lo))
 
+// Trace of the records handed to the reporter (C06, C12): procLen calls of Process so far, each with the date parsed
+// from the record's heading (procTime) and the parser record it was built from (procSrc).
+ghost procLen  int
+ghost procTime seq[time.Time]
+ghost procSrc  seq[int]
+
 // The callback of WalkNodesInStream: stops at the first error (parse error, heading that is not a date, filter,
 // merge or reporter error) and hands it back; it never stops the walk without an error, so a successful walk
 // has seen every record of the log.
 func WalkNodesInStream$1
-  props C08 C09 C10 C17
+  props C08 C09 C10 C17 C06 C12
   refines parser.StopOnErr
   // the frame is precise: its own captured variables and what the fourteen reporters may change - in particular
   // neither the recipe book nor any list of elements
@@ -101,13 +107,24 @@ func WalkNodesInStream$1
   modifies heap(shared.TreeNode), maps(string, *shared.TreeNode), heap(balance.balanceSingleReporter), arrays(float64), maps(string, shared.AccValues), maps(string, bool), maps(string, float64)
   dyncall 1 filter.LogNodeFilter
   requires @reporter RepInv(r) && (filter == nil || *filter != nil)
-  modifies ghost(accKey, accP, accN, accH, bufSticky, sinkFailed, sinkPend, prLen, prSink, prArg, prArgs, csvLen, csvW, csvN, csvRow, tnodes, tdepth, tmax, tmapOf, jlen)
+  modifies ghost(accKey, accP, accN, accH, bufSticky, sinkFailed, sinkPend, prLen, prSink, prArg, prArgs, csvLen, csvW, csvN, csvRow, tnodes, tdepth, tmax, tmapOf, jlen, procLen, procTime, procSrc)
+  let H := n.Header
+  let T := ParseTimeVal(dateFormat, n.Header)
+  let SEL := filter == nil || FilterSel(*filter, Inst(ParseTimeVal(dateFormat, n.Header)))
+  // a record is handed to the reporter exactly when its heading parses as a date that the filter selects (C06)
+  ensures @continue-means-ok !stop ==> cbError == nil
+  ensures @heading-is-a-date [C06] err == nil && cbError == nil ==> ParseTimeOk(dateFormat, H)
+  ensures @selected-processed [C06 C12] err == nil && cbError == nil && SEL ==> procLen == old(procLen) + 1 && procTime == store(old(procTime), old(procLen), T) && procSrc == store(old(procSrc), old(procLen), ref(n))
+  ensures @unselected-skipped [C06 C12] err == nil && cbError == nil && !SEL ==> procLen == old(procLen) && procTime == old(procTime) && procSrc == old(procSrc)
+  ensures @at-most-one [C06 C12] (procLen == old(procLen) && procTime == old(procTime) && procSrc == old(procSrc)) || (procLen == old(procLen) + 1 && procTime == store(old(procTime), old(procLen), procTime[old(procLen)]) && procSrc == store(old(procSrc), old(procLen), procSrc[old(procLen)]))
+  ghost before call 1 Process { set procTime := store(procTime, procLen, t); set procSrc := store(procSrc, procLen, ref(node)); set procLen := procLen + 1 }
   ensures @rep-buf [C17 C08] r == old(r) && RepBuf(r) == old(RepBuf(r))
   ensures @rep-sink [C17] BufStep(RepBuf(r))
   ensures @rep-inv [C17 C08] RepInv(r)
   ensures @filter-kept filter == old(filter) && (filter != nil ==> *filter == old(*filter))
   ensures @book-kept typeis(r, "*balance.balanceSingleReporter") ==> cellat(balance.balanceSingleReporter, payload(r)).db == old(cellat(balance.balanceSingleReporter, payload(r)).db)
   ghost after call 1 Process {
+    assert @proc-kept procLen == at(call, procLen) && procTime == at(call, procTime) && procSrc == at(call, procSrc)
     assert @sink-balanceReporter typeis(r, "*balance.balanceReporter") ==> BufStep(cellat(balance.balanceReporter, payload(r)).output)
     assert @sink-balanceReporterCollapsed typeis(r, "*balance.balanceReporterCollapsed") ==> BufStep(cellat(balance.balanceReporterCollapsed, payload(r)).output)
     assert @sink-balanceSingleReporter typeis(r, "*balance.balanceSingleReporter") ==> BufStep(cellat(balance.balanceSingleReporter, payload(r)).output)
@@ -127,13 +144,19 @@ func WalkNodesInStream$1
 // WalkNodesInStream fails iff the log has a malformed line, cannot be read completely, or a record is rejected
 // by the callback above; the error of a malformed line is that of the first one
 func WalkNodesInStream returns (err)
-  props C08 C09 C10
+  props C08 C09 C10 C06 C12
   calluse ParseStreamCallback#1 walk
   requires @reporter RepInv(r) && (filter == nil || *filter != nil) && logStream != nil
   modifies heap(shared.TreeNode), maps(string, *shared.TreeNode), heap(balance.balanceSingleReporter), arrays(float64), maps(string, shared.AccValues), maps(string, bool), maps(string, float64)
-  modifies ghost(cbLen, cbErr, cbNode, cbStop, cbRet, cbLineNo, cbLine, cbHeader, cbElems, cbNElems, scRd, scPos, privLo, evOf, accKey, accP, accN, accH, bufSticky, sinkFailed, sinkPend, prLen, prSink, prArg, prArgs, csvLen, csvW, csvN, csvRow, tnodes, tdepth, tmax, tmapOf, jlen)
+  modifies ghost(cbLen, cbErr, cbNode, cbStop, cbRet, cbLineNo, cbLine, cbHeader, cbElems, cbNElems, scRd, scPos, privLo, evOf, accKey, accP, accN, accH, bufSticky, sinkFailed, sinkPend, prLen, prSink, prArg, prArgs, csvLen, csvW, csvN, csvRow, tnodes, tdepth, tmax, tmapOf, jlen, procLen, procTime, procSrc)
   let B := RepBuf(r)
   ensures @reporter [C17 C08] RepInv(r) && RepBuf(r) == B && BufStep(B)
+  // C06 / C12: the reporter is handed exactly the records whose heading date the filter selects, in file order:
+  // record event j (the j-th heading, see C04) is processed iff selected; nothing else is processed
+  ensures @events-are-headings [C06 C12] err == nil ==> cbLen - old(cbLen) == HeadCount(rd, RdN(rd), cc) && (forall j int :: {cbHeader[j]} old(cbLen) <= j && j < cbLen ==> cbHeader[j] == RecHdr(rd, evLine[j], cc) && HeadCount(rd, evLine[j], cc) == j - old(cbLen) + 1)
+  ensures @selected-processed [C06 C12] err == nil ==> (forall j int :: {cbHeader[j]} old(cbLen) <= j && j < cbLen ==> ParseTimeOk(dateFormat, cbHeader[j]) && ((filter == nil || FilterSel(*filter, Inst(ParseTimeVal(dateFormat, cbHeader[j])))) ==> old(procLen) <= procOf[j] && procOf[j] < procLen && procTime[procOf[j]] == ParseTimeVal(dateFormat, cbHeader[j]) && evOfProc[procOf[j]] == j))
+  ensures @only-selected [C06 C12] err == nil ==> (forall k int :: {evOfProc[k]} old(procLen) <= k && k < procLen ==> old(cbLen) <= evOfProc[k] && evOfProc[k] < cbLen && (filter == nil || FilterSel(*filter, Inst(ParseTimeVal(dateFormat, cbHeader[evOfProc[k]])))) && procOf[evOfProc[k]] == k)
+  ensures @file-order [C06 C12] err == nil ==> (forall k int :: {evOfProc[k]} old(procLen) <= k && k + 1 < procLen ==> evOfProc[k] < evOfProc[k + 1])
   let rd := payload(logStream)
   let cc := pc.CommentChar
   ensures @fails-on-malformed [C09] err == nil ==> (forall i int :: {RdLine(rd, i)} 0 <= i && i < RdN(rd) ==> !Malformed(rd, i, cc))
@@ -153,7 +176,7 @@ fun CbCC(f int) uint8
 type utils.ResolvedCallback(nl) returns (err)
   requires @book DBIs(nl) && TreeInv()
   modifies *
-  modifies ghost(cbLen, cbErr, cbNode, cbStop, cbRet, cbLineNo, cbLine, cbHeader, cbElems, cbNElems, scRd, scPos, privLo, evOf, accKey, accP, accN, accH, bufSink, bufSticky, sinkFailed, sinkPend, prLen, prSink, prArg, prArgs, csvLen, csvW, csvN, csvRow, tnodes, tdepth, tmax, tmapOf, jlen)
+  modifies ghost(cbLen, cbErr, cbNode, cbStop, cbRet, cbLineNo, cbLine, cbHeader, cbElems, cbNElems, scRd, scPos, privLo, evOf, accKey, accP, accN, accH, bufSink, bufSticky, sinkFailed, sinkPend, prLen, prSink, prArg, prArgs, csvLen, csvW, csvN, csvRow, tnodes, tdepth, tmax, tmapOf, jlen, procLen, procTime, procSrc)
   ensures @log-unreadable [C10] err == nil ==> !RdFailed(CbLog(self))
   ensures @log-malformed [C09] err == nil ==> (forall i int :: {RdLine(CbLog(self), i)} 0 <= i && i < RdN(CbLog(self)) ==> !Malformed(CbLog(self), i, CbCC(self)))
   ensures @reports-loss [C17] err == nil ==> (sinkFailed[CbOut(self)] ==> old(sinkFailed[CbOut(self)])) && sinkPend[CbOut(self)] == 0
@@ -169,7 +192,7 @@ func WithResolvedDatabase returns (err)
   funcparam cb utils.ResolvedCallback
   calluse Resolve#1 any
   modifies *
-  modifies ghost(cbLen, cbErr, cbNode, cbStop, cbRet, cbLineNo, cbLine, cbHeader, cbElems, cbNElems, scRd, scPos, privLo, evOf, accKey, accP, accN, accH, bufSink, bufSticky, sinkFailed, sinkPend, prLen, prSink, prArg, prArgs, csvLen, csvW, csvN, csvRow, tnodes, tdepth, tmax, tmapOf, jlen)
+  modifies ghost(cbLen, cbErr, cbNode, cbStop, cbRet, cbLineNo, cbLine, cbHeader, cbElems, cbNElems, scRd, scPos, privLo, evOf, accKey, accP, accN, accH, bufSink, bufSticky, sinkFailed, sinkPend, prLen, prSink, prArg, prArgs, csvLen, csvW, csvN, csvRow, tnodes, tdepth, tmax, tmapOf, jlen, procLen, procTime, procSrc)
   let rd := payload(dbStream)
   let cc := pc.CommentChar
   ensures @book-unreadable [C10] err == nil ==> !RdFailed(rd)
@@ -204,7 +227,7 @@ func WalkWithReporter returns (err)
   requires @sink logStream != nil && dbStream != nil && rpCb != nil && rpc.Output != nil && !typeis(rpc.Output, "*bufio.Writer") && !typeis(rpc.Output, "*encoding/csv.Writer") && TreeInv()
   funcparam rpCb utils.ReporterCallback
   modifies *
-  modifies ghost(cbLen, cbErr, cbNode, cbStop, cbRet, cbLineNo, cbLine, cbHeader, cbElems, cbNElems, scRd, scPos, privLo, evOf, accKey, accP, accN, accH, bufSink, bufSticky, sinkFailed, sinkPend, prLen, prSink, prArg, prArgs, csvLen, csvW, csvN, csvRow, tnodes, tdepth, tmax, tmapOf, jlen)
+  modifies ghost(cbLen, cbErr, cbNode, cbStop, cbRet, cbLineNo, cbLine, cbHeader, cbElems, cbNElems, scRd, scPos, privLo, evOf, accKey, accP, accN, accH, bufSink, bufSticky, sinkFailed, sinkPend, prLen, prSink, prArg, prArgs, csvLen, csvW, csvN, csvRow, tnodes, tdepth, tmax, tmapOf, jlen, procLen, procTime, procSrc)
   let out := payload(rpc.Output)
   let lrd := payload(logStream)
   let drd := payload(dbStream)
